@@ -355,11 +355,33 @@ class MonitoredIntegrator:
                 return
         ctx.count("manifold_checks")
         lim_c = 10 * self.constraint_tol
-        lim_t = 1e-8 * (1.0 + float(np.max(np.abs(st.mom)))) * max(1.0, float(np.max(np.abs(J))))
+        lim_t = 1e-8 * (1.0 + max(float(np.max(np.abs(st.mom))), float(np.max(np.abs(v))))) * max(1.0, float(np.max(np.abs(J))))
         if not (c < lim_c):
             ctx.violations.append(violation("off-manifold", f"off-manifold:{where}", f"after a successful {where}: |c(q)| = {c:.3e} >= {lim_c:.1e}"))
         if not (cot < lim_t):
             ctx.violations.append(violation("off-cotangent", f"off-cotangent:{where}", f"after a successful {where}: |J M^-1 p| = {cot:.3e} >= {lim_t:.1e}"))
+            return
+        # scale-free form: cosine, in the metric's own inner product, of the angle between the velocity and
+        # each constraint normal; the allowance grows with the conditioning of the (normalised) Gram matrix
+        with paused(ctx):
+            try:
+                G = J @ np.asarray(self.system.metric.inv @ J.T)
+                d = np.sqrt(np.diag(G))
+                ke = float(fresh.mom @ v)
+                if not (np.all(d > 0) and ke > 0 and np.all(np.isfinite(G))):
+                    return
+                cos = float(np.max(np.abs(J @ v) / d)) / math.sqrt(ke)
+                cond = float(np.linalg.cond(G / np.outer(d, d)))
+            except Exception:  # noqa: BLE001
+                return
+        if not np.isfinite(cond) or cond > 1e7:
+            ctx.count("cotangent_relative_skipped_illconditioned")
+            return
+        ctx.count("cotangent_relative_checks")
+        lim_r = 1e-10 * max(10.0, cond)
+        ctx.counters["cotangent_relative_worst_e18"] = max(ctx.counters.get("cotangent_relative_worst_e18", 0), int(1e18 * cos / lim_r * 1e-0))
+        if not (cos < lim_r):
+            ctx.violations.append(violation("off-cotangent", f"off-cotangent:{where}", f"after a successful {where}: velocity has cosine {cos:.3e} >= {lim_r:.1e} with a constraint normal (metric inner product; Gram condition {cond:.1e})"))
 
     # ---- C02 invariant ----
     def _check_reversal(self, inp, out):
